@@ -13,8 +13,10 @@
    on the real code by checks/c10.py); `_partial` = proved for the trees that avoid the
    defective nodes:
      emit_ok e     = every node has an opcode (fails for enum operands of < > <= >= == != %)
-     no_enum_div e = no enum operand under / or % (raw C division in the reducer)
-     strict e      = no && || ?: and no enum operand under a bit operator *)
+     strict e      = no && || ?: and no enum operand under a bit operator
+   (the former side condition no_enum_div — no enum operand under / or % — is gone: since
+   /repo 355bd8f the enum arms of expr_div_constred / expr_mod_constred fold a / -1 as -a and
+   a % -1 as 0 like the int arms, fold_never_crashes holds for all trees) *)
 From Coq Require Import ZArith Bool List.
 From NV Require Import Arith.NumTy Arith.VMOps Arith.Promote Arith.RtEval Arith.Constred
   Arith.ConstredProofs Arith.Enumred Arith.EnumredProofs.
@@ -65,7 +67,7 @@ Print Assumptions int_min_div_wraps_both_sides.
 
 (* every eagerly evaluated tree folds completely *)
 Theorem fold_total : forall e t,
-  ty_of e = Some t -> emit_ok e = true -> no_enum_div e = true -> strict e = true ->
+  ty_of e = Some t -> emit_ok e = true -> strict e = true ->
   fold e = FReject \/ exists l, fold e = FOk (ELit l) /\ lit_ty l = t.
 Proof. exact ConstredProofs.fold_total. Qed.
 Print Assumptions fold_total.
@@ -86,18 +88,20 @@ Theorem cond_div0_is_rejected_but_runs :
 Proof. exact ConstredProofs.cond_div0_is_rejected_but_runs. Qed.
 Print Assumptions cond_div0_is_rejected_but_runs.
 
-(* the reducer does not trap ... *)
-Theorem fold_never_crashes_partial : forall e t,
-  ty_of e = Some t -> emit_ok e = true -> no_enum_div e = true -> fold e <> FCrash.
-Proof. exact ConstredProofs.fold_never_crashes_partial. Qed.
-Print Assumptions fold_never_crashes_partial.
+(* the reducer never traps, on any tree *)
+Theorem fold_never_crashes : forall e, fold e <> FCrash.
+Proof. exact ConstredProofs.fold_never_crashes. Qed.
+Print Assumptions fold_never_crashes.
 
-(* ... except through the enum arms of expr_div_constred / expr_mod_constred *)
-Theorem fold_never_crashes_refuted :
-  exists e t v, ty_of e = Some t /\ emit_ok e = true /\ strict e = true /\
-    fold e = FCrash /\ rt_eval e = Val v.
-Proof. exact ConstredProofs.fold_never_crashes_refuted. Qed.
-Print Assumptions fold_never_crashes_refuted.
+(* regression statement for the enum arms of expr_div_constred / expr_mod_constred (/repo
+   355bd8f): E::M / -1 and E::M % E::N with M = INT_MIN, N = -1 fold to the wrapped values *)
+Theorem enum_min_div_wraps_both_sides :
+  ty_of ex_enum_min_div = Some TInt /\ emit_ok ex_enum_min_div = true /\
+  fold ex_enum_min_div = FOk (ELit (LInt (-2147483648))) /\
+  rt_eval ex_enum_min_div = Val (VInt (-2147483648)) /\
+  fold ex_enum_min_mod = FOk (ELit (LInt 0)).
+Proof. exact ConstredProofs.enum_min_div_wraps_both_sides. Qed.
+Print Assumptions enum_min_div_wraps_both_sides.
 
 (* the VM never traps *)
 Theorem run_never_traps : forall e, run e <> Crash SigFpe.
@@ -125,6 +129,11 @@ Theorem efold_never_crashes : forall e, efold e <> FCrash.
 Proof. exact EnumredProofs.efold_never_crashes. Qed.
 Print Assumptions efold_never_crashes.
 
+(* ... and on the common fragment the two reducers are the same function *)
+Theorem enumred_is_constred_on_int_trees : forall e, int_only e = true -> efold e = fold e.
+Proof. exact EnumredProofs.efold_is_fold. Qed.
+Print Assumptions enumred_is_constred_on_int_trees.
+
 (* the theorems apply to everything the typechecker accepts *)
 Theorem elab_well_typed : forall s e t, elab s = Some (e, t) -> ty_of e = Some t.
 Proof. exact ConstredProofs.elab_well_typed. Qed.
@@ -133,6 +142,6 @@ Print Assumptions elab_well_typed.
 (* hypotheses are satisfiable: a mixed, eagerly evaluated, clean tree *)
 Example hypotheses_satisfiable :
   let e := EBin Add (EConv I2D (ELit (LInt 1))) (ELit (LDouble 4612811918334230528)) in
-  ty_of e = Some TDouble /\ emit_ok e = true /\ no_enum_div e = true /\ strict e = true /\
+  ty_of e = Some TDouble /\ emit_ok e = true /\ strict e = true /\
   fold e = FOk (ELit (LDouble 4615063718147915776)).
 Proof. vm_compute. repeat split. Qed.
